@@ -110,6 +110,20 @@ func vMsgsPrefix(got, ref []vMsgOut, label string) {
 	}
 }
 
+// vAssumeChunkCRCsNonZero: with the CRC uninterpreted, "the stored chunk CRC is 0" is a feasible value, and 0 means
+// "not available" (validation is skipped by specification). The real CRC-32 of a given chunk is 0 with probability
+// 2^-32; harnesses that are not about CRC values assume it away (listed in the evidence).
+func vAssumeChunkCRCsNonZero(w *Writer, file []byte, includeCRC bool) {
+	if !includeCRC {
+		return
+	}
+	for _, ci := range w.ChunkIndexes {
+		crc, _, err := getUint32(file, int(ci.ChunkStartOffset)+9+24)
+		vAssert(err == nil, "chunk header readable")
+		vAssume(crc != 0)
+	}
+}
+
 // C09: a file cut at any byte reads as a prefix of its records.
 // params: tpl, cfg, cs, validate, lo, hi (partition cell of the cut position L: lo <= L < hi),
 // rd (0: lexer, 1: non-indexed iterator - separate jobs, so their path counts add instead of multiplying)
@@ -123,6 +137,7 @@ func VC09Cut() {
 		vReach("end") // cell beyond the file: nothing to decide
 		return
 	}
+	vAssumeChunkCRCsNonZero(w, file, opts.IncludeCRC)
 	lopts := &LexerOptions{ValidateChunkCRCs: validate == 1, Decompressors: vDecompressors(cfg)}
 	ref, rerr := vLexEvents(vNewSource(file), lopts)
 	vAssert(rerr == io.EOF, "the whole file lexes to EOF")
